@@ -35,6 +35,9 @@ def run(tier):
             if tier == "quick" and k == 3:
                 combos = combos[::3]
                 krts = [r for r in krts if r != 9][:3]  # the two-comparator template is run on its own family below
+            if sys == MAVEN and tier == "quick":
+                # the other spelling of a version (template 4) once, next to a plain version
+                combos = [c for c in combos if 4 not in c or c == (0, 4)]
             for vt in combos:
                 for rt in krts:
                     for latest in ([-1, 0, k - 1] if sys == NPM else [-1]):
